@@ -820,6 +820,29 @@ func CaseInsensitive(t Tier) []*Grammar {
 	return out
 }
 
+// CaptureComposite: one capture around a sequence that contains a repetition / option of a multi-token body.
+// The last iteration can match its first tokens and then be given up: nothing of it belongs to the capture.
+func CaptureComposite(t Tier) []*Grammar {
+	atoms := []func() *g.Node{
+		lit("b"), lit("c"), capOf(ref("Ident")),
+		func() *g.Node { return capMark(g.Seq(g.Lit("a"), g.Grp(g.Seq(g.Lit("b"), g.Lit("a")), '*'))) },
+		func() *g.Node { return capMark(g.Seq(g.Ref("Ident"), g.Grp(g.Seq(g.Lit("b"), g.Ref("Ident")), '*'))) },
+		func() *g.Node { return capMark(g.Grp(g.Seq(g.Lit("a"), g.Lit("b")), '+')) },
+		func() *g.Node { return capMark(g.Seq(g.Lit("a"), g.Grp(g.Seq(g.Lit("b"), g.Lit("c")), '?'))) },
+		func() *g.Node { return g.Grp(capMark(g.Seq(g.Lit("b"), g.Lit("c"))), '?') },
+		func() *g.Node { return capMark(g.Seq(g.Lit("a"), g.Grp(g.Alt(g.Seq(g.Lit("b"), g.Lit("b")), g.Lit("c")), '*'))) },
+	}
+	memo := map[int][]func() *g.Node{}
+	var ts []func() *g.Node
+	ts = append(ts, terms(1, atoms, memo)...)
+	ts = append(ts, terms(2, atoms, memo)...)
+	ml := 6
+	if t == Quick {
+		ml = 5
+	}
+	return build("capcomp2", top(ts), []scheme{schemeOwn, schemeSlices, schemeToks}, "abc", ml)
+}
+
 // ParseableFam: a user-implemented production (gmodel.PNotB) at choice points: attempts it abandons with
 // NextMatch after writing to its receiver, followed by attempts that succeed.
 func ParseableFam(t Tier) []*Grammar {
